@@ -48,14 +48,37 @@ type Case struct {
 	// does not consider it for header sync, but still talks to it. Never set
 	// for peer 0.
 	NoNet []bool `json:"no_net,omitempty"`
+	// FilterLag: the pre-filled filter headers end this many blocks below
+	// the pre-filled block headers (checkpointed unit).
+	FilterLag int `json:"filter_lag,omitempty"`
+	// Hard: heights (multiples of the filter checkpoint interval) at which
+	// the generated network has a hard-coded filter-header checkpoint equal
+	// to the honest chain's filter header.
+	Hard []int `json:"hard,omitempty"`
 }
 
 var advKinds = []string{"badhdr", "lightfork", "cfliar-omit", "cfliar-empty", "cfliar-inconsistent", "cfliar-unserved", "garbage", "silent", "stall", "flap"}
 
-func genCase(t *rapid.T) Case {
+// advKindsBig: the checkpointed unit leans on the filter-header adversaries
+// (the lies reach back over several checkpoint intervals there) and adds one
+// that lies in its filter checkpoints only.
+var advKindsBig = []string{"badhdr", "lightfork", "cfliar-omit", "cfliar-empty", "cfliar-inconsistent", "cfliar-unserved", "cfliar-omit", "cfliar-inconsistent", "cfliar-unserved", "cfliar-ckptonly", "cfliar-ckptonly", "garbage", "silent", "stall", "flap"}
+
+func genCaseBig(t *rapid.T) Case { return genCaseSized(t, true) }
+
+func genCase(t *rapid.T) Case { return genCaseSized(t, false) }
+
+func genCaseSized(t *rapid.T, big bool) Case {
 	p := kit.GenParams(t)
 	base := rapid.IntRange(5, 120).Draw(t, "base")
 	fut := rapid.IntRange(3, 25).Draw(t, "future")
+	kinds := advKinds
+	if big {
+		// (fixed parameter set: thousands of headers are mined per world)
+		p = kit.ParamSpec{Retarget: 0, Spacing: 60, Adj: 4, VerFloor: 1}
+		base = rapid.IntRange(1001, 2300).Draw(t, "bigbase")
+		kinds = advKindsBig
+	}
 	ws := kit.WorldSpec{P: p, Seed: rapid.Uint64Range(0, 5).Draw(t, "wseed"), Base: base, Future: fut, Pace: kit.Pick(t, "pace", []int{0, 1, 1, 2, 3}), Tx: true}
 	nb := rapid.IntRange(1, 3).Draw(t, "nbranches")
 	for i := 0; i < nb; i++ {
@@ -70,9 +93,31 @@ func genCase(t *rapid.T) Case {
 	if kit.Uni(t, "prefillp", 3) != 0 {
 		c.Prefill = rapid.IntRange(0, base).Draw(t, "prefill")
 	}
+	if big {
+		ws.Pace = 1
+		c.World = ws
+		if c.Prefill > 0 && kit.Uni(t, "flagp", 2) == 0 {
+			c.FilterLag = rapid.IntRange(1, c.Prefill).Draw(t, "filterlag")
+		}
+		if kit.Uni(t, "hard", 2) == 0 {
+			// A hard-coded checkpoint belongs to the one chain the
+			// network has: only heights below every fork point of
+			// the generated tree (on a real network the block
+			// checkpoints rule out a fork below a filter checkpoint).
+			lowest := base
+			for _, b := range ws.Branches {
+				lowest = min(lowest, b.At)
+			}
+			for h := 1000; h <= lowest; h += 1000 {
+				if rapid.Bool().Draw(t, "hardat") {
+					c.Hard = append(c.Hard, h)
+				}
+			}
+		}
+	}
 	c.Honest = rapid.IntRange(1, 2).Draw(t, "honest")
 	c.Advs = rapid.SliceOfN(rapid.Custom(func(t *rapid.T) Adv {
-		return Adv{Kind: kit.Pick(t, "akind", advKinds), Period: kit.Pick(t, "period", []int{2, 5, 11, 30}), Param: rapid.IntRange(0, 30).Draw(t, "param")}
+		return Adv{Kind: kit.Pick(t, "akind", kinds), Period: kit.Pick(t, "period", []int{2, 5, 11, 30}), Param: rapid.IntRange(0, 30).Draw(t, "param")}
 	}), 0, 4).Draw(t, "advs")
 	for i := 0; i < c.Honest+len(c.Advs); i++ {
 		c.DialDelayMs = append(c.DialDelayMs, kit.Pick(t, "dial", []int{0, 0, 1, 50, 400, 3000}))
@@ -95,6 +140,22 @@ func runCase(t *testing.T, c Case) kit.Verdict {
 	w := kit.BuildWorld(c.World)
 	np := c.Honest + len(c.Advs)
 	cfg := netsim.Config{World: w, NumPeers: np, Prefill: c.Prefill}
+	if c.FilterLag > 0 && c.Prefill > 0 {
+		cfg.PrefillFilterTip = c.Prefill - c.FilterLag
+		if cfg.PrefillFilterTip <= 0 {
+			cfg.PrefillFilterTip = -1
+		}
+	}
+	for _, h := range c.Hard {
+		if n := w.Node(0, h); n != nil {
+			if cfg.HardCF == nil {
+				cfg.HardCF = map[uint32]chainhash.Hash{}
+			}
+			cfg.HardCF[uint32(h)] = n.FHdr
+			v.Class("hard-checkpoint")
+		}
+	}
+	bigWorld := c.World.Base >= 1000
 	for i := 0; i < np; i++ {
 		cfg.Initial = append(cfg.Initial, i)
 	}
@@ -151,6 +212,12 @@ func runCase(t *testing.T, c Case) kit.Verdict {
 			case "cfliar-omit", "cfliar-empty", "cfliar-inconsistent", "cfliar-unserved":
 				p.LieCFKind = a.Kind[len("cfliar-"):]
 				p.LieCFFrom = int32(max(1, c.World.Base-a.Param))
+				if bigWorld {
+					// reaches back over checkpoint intervals
+					p.LieCFFrom = int32(max(1, c.World.Base-a.Param*75))
+				}
+			case "cfliar-ckptonly":
+				p.LieCkptFrom = int32(max(1000, (c.World.Base-a.Param*75)/1000*1000))
 			case "silent":
 				p.Silent = true
 			case "stall":
@@ -435,6 +502,10 @@ func anyLiar(c Case) bool {
 }
 
 var _ = wire.MsgPing{}
+
+func TestC04Big(t *testing.T) {
+	kit.RunProp(t, kit.Prop[Case]{ID: "C04", Name: "netsim-checkpointed", Gen: genCaseBig, Run: runCase})
+}
 
 func TestC04(t *testing.T) {
 	kit.RunProp(t, kit.Prop[Case]{ID: "C04", Name: "netsim", Gen: genCase, Run: runCase})
